@@ -5,6 +5,7 @@ from hypothesis import strategies as st
 from vlib.runner import Sub, ok, bad, skip
 from vlib import bench, c11lib
 
+LEVEL = "fault_enumeration"
 RULE = ("shared interconnect of each bus standard (wishbone.InterconnectShared, AXILiteInterconnectShared, "
         "AXIInterconnectShared) with timeout_cycles T in {1,2,3,4,8,16} x 1..2 masters x 1..2 slaves behind real "
         "SoCRegion decoders x request programs (reads/writes, mapped and unmapped addresses, gaps, held cyc / AW-W skew, "
